@@ -10,7 +10,7 @@ for d in sorted(glob.glob(os.path.join(ROOT, "seeded", "*", "*"))):
     title = (meta.get("title") or "").replace("|", "/").strip()
     files = ", ".join(meta.get("files") or [])
     if res is None:
-        caught, how = "not run", ""
+        caught, how = ("neutralised" if (meta.get("status_note") or "").startswith("neutralised") else "not run"), ""
     else:
         own = [r for r in res["runs"] if r["property"] == pid and r["exit"] != 0]
         if own:
@@ -22,7 +22,7 @@ for d in sorted(glob.glob(os.path.join(ROOT, "seeded", "*", "*"))):
             if f.get("suite"):
                 how = f["suite"] + ": " + how
         else:
-            caught, how = "MISSED", ""
+            caught, how = ("neutralised" if (meta.get("status_note") or "").startswith("neutralised") else "MISSED"), ""
         others = sorted(set(r["property"] for r in res["runs"] if r["property"] != pid and r["exit"] != 0))
         if others:
             how += " (also: " + ", ".join(others) + ")"
@@ -35,5 +35,5 @@ print("|---|---|---|---|---|")
 for pid, k, title, files, caught, how in rows:
     print("| %s/%s | %s | %s | %s | %s |" % (pid, k, title, files, caught, how))
 tot = len(rows); c = sum(1 for r in rows if r[4] in ("quick", "thorough")); q = sum(1 for r in rows if r[4] == "quick")
-print("\n%d changes, %d caught by the property's own check (%d in the quick tier), %d missed, %d not run." %
-      (tot, c, q, sum(1 for r in rows if r[4] == "MISSED"), sum(1 for r in rows if r[4] == "not run")))
+print("\n%d changes, %d caught by the property's own check (%d in the quick tier), %d missed, %d neutralised by a later fix, %d not run." %
+      (tot, c, q, sum(1 for r in rows if r[4] == "MISSED"), sum(1 for r in rows if r[4] == "neutralised"), sum(1 for r in rows if r[4] == "not run")))
